@@ -33,10 +33,15 @@ func (l *Line) Int(v int64) *Line {
 	}
 	return l
 }
-func (l *Line) I(v int) *Line      { return l.Int(int64(v)) }
-func (l *Line) U(v uint64) *Line   { l.toks = append(l.toks, strconv.FormatUint(v, 16)); return l }
-func (l *Line) F(x float64) *Line  { return l.U(math.Float64bits(x)) }
-func (l *Line) B(b bool) *Line     { if b { return l.I(1) }; return l.I(0) }
+func (l *Line) I(v int) *Line     { return l.Int(int64(v)) }
+func (l *Line) U(v uint64) *Line  { l.toks = append(l.toks, strconv.FormatUint(v, 16)); return l }
+func (l *Line) F(x float64) *Line { return l.U(math.Float64bits(x)) }
+func (l *Line) B(b bool) *Line {
+	if b {
+		return l.I(1)
+	}
+	return l.I(0)
+}
 func (l *Line) Fs(xs []float64) *Line {
 	l.I(len(xs))
 	for _, x := range xs {
@@ -124,9 +129,7 @@ func runOne(p *Prop, raw []byte, out *bufio.Writer) {
 	// A fatal runtime error of the code under test (stack overflow by unbounded recursion,
 	// out of memory, concurrent map write) kills the process and cannot be recovered:
 	// leave the case being run where the driver finds it (bin/check: replay kind "crash").
-	if f := os.Getenv("VHARNESS_CURRENT"); f != "" {
-		os.WriteFile(f, raw, 0o644)
-	}
+	noteCurrent(raw)
 	type res struct {
 		line *Line
 		err  error
@@ -234,4 +237,35 @@ func genValue(rng *rand.Rand, kind int) float64 {
 		}
 		return m
 	}
+}
+
+// noteCurrent records the case that is about to run in the file named by VHARNESS_CURRENT, so that
+// the driver can name it when the process is killed by a fatal runtime error of the code under test
+// (stack overflow, out of memory: no deferred function runs). One file is kept open and overwritten
+// in place; the content is terminated by a newline and the rest of an older, longer case is blanked
+// (an open/write/close per case cost 50 s on C18's 200,000 cases).
+var (
+	curFile *os.File
+	curLen  int
+	curInit bool
+)
+
+func noteCurrent(raw []byte) {
+	if !curInit {
+		curInit = true
+		if f := os.Getenv("VHARNESS_CURRENT"); f != "" {
+			curFile, _ = os.OpenFile(f, os.O_CREATE|os.O_WRONLY|os.O_TRUNC, 0o644)
+		}
+	}
+	if curFile == nil {
+		return
+	}
+	buf := make([]byte, 0, len(raw)+1)
+	buf = append(buf, raw...)
+	buf = append(buf, '\n')
+	for len(buf) < curLen {
+		buf = append(buf, ' ')
+	}
+	curFile.WriteAt(buf, 0)
+	curLen = len(raw) + 1
 }
